@@ -116,6 +116,32 @@ def _definition_pairs(d1: int, d2: int, d3: int, indent: int) -> bool:
     return result(ok, len(tree.definitions) >= 2)
 
 
+# ------------------------------------------------------------------ ONE printer object used for several documents (earlier trees already released)
+N_REUSE = 40
+
+
+def _printer_reuse(d1: int, d2: int, d3: int, indent: int) -> bool:
+    """
+    pre: 0 <= d1 < N_REUSE and 0 <= d2 < N_REUSE and -1 <= d3 < N_REUSE and 0 <= indent <= 1
+    pre: d3 == -1 or thorough()
+    pre: shard_of(d1)
+    post: _
+    """
+    order = [concrete_int(d1, 0, N_REUSE - 1), concrete_int(d2, 0, N_REUSE - 1)] + ([concrete_int(d3, 0, N_REUSE - 1)] if d3 >= 0 else [])
+    IND = pick(indent, INDENTS)
+    with untraced():
+        printer = ASTPrinter(indent=IND)            # configured once, used for every document - what a long-lived service does
+        ok = True
+        for rounds in range(2):
+            for i in order:
+                entry, text = DOCS[i]
+                tree = parse_entry(entry, text)
+                out = printer(tree)
+                del tree                             # the tree is released before the next one is parsed
+                ok = ok and out == print_ast(parse_entry(entry, text), indent=IND)
+    return result(ok, True)
+
+
 STR_N = 3 if thorough() else 2
 
 
@@ -264,6 +290,12 @@ def _string_in_context(c1: int, c2: int, c3: int, ctx: int, block: bool, indent:
 
 
 CONDITIONS = [
+    Cond(
+        name="printer_reuse", fn=_printer_reuse, quick=90, thorough=600, per_path=30, shards_quick=16, shards_thorough=16,
+        bound="ONE ASTPrinter object printing a sequence of 2 (thorough 3) documents out of %d, twice over, each tree released before the next is parsed x 2 indents: every text equals what a fresh printer gives for that document "
+              "(printing is a function of the tree, not of what the printer printed before)" % N_REUSE,
+        symbolic={"d1,d2,d3": "choice: documents", "indent": "choice"}, witness={"d1": 0, "d2": 1, "d3": -1, "indent": 0},
+    ),
     Cond(
         name="definition_pairs", fn=_definition_pairs, quick=90, thorough=600, per_path=30, shards_quick=16, shards_thorough=16,
         bound="every ordered pair (thorough: also triples ending in one of the 10 executable definitions) of %d definition texts - every kind of executable and type-system definition and extension, with and without body, "
